@@ -12,19 +12,26 @@ pub fn fragment_target_count(module: &Module, f: &Function) -> usize {
         Some(r) => match &r.binding {
             Some(b) => {
                 // Builtins don't have render targets.
-                if matches!(b, naga::Binding::Location { .. }) {
-                    1
-                } else {
-                    0
+                // The targets array is indexed by location.
+                match b {
+                    naga::Binding::Location { location, .. } => *location as usize + 1,
+                    _ => 0,
                 }
             }
             None => {
                 // Fragment functions should return a single variable or a struct.
+                // The targets array is indexed by location, so use the highest location.
                 match &module.types[r.ty].inner {
                     naga::TypeInner::Struct { members, .. } => members
                         .iter()
-                        .filter(|m| matches!(m.binding, Some(naga::Binding::Location { .. })))
-                        .count(),
+                        .filter_map(|m| match m.binding {
+                            Some(naga::Binding::Location { location, .. }) => {
+                                Some(location as usize + 1)
+                            }
+                            _ => None,
+                        })
+                        .max()
+                        .unwrap_or(0),
                     _ => 0,
                 }
             }
